@@ -25,6 +25,7 @@ type Job struct {
 	MaxViol   int    `json:"max_viol"`
 	ShrinkS   int    `json:"shrink_s"`
 	ViolProp  string `json:"viol_prop"` // hunting: minimise violations of this property instead of Prop
+	SeedStride int     `json:"seed_stride"` // default 1
 	KnownSigs []string `json:"known_sigs"` // signatures listed in known_findings.json: reported, not minimised
 }
 
@@ -201,7 +202,11 @@ func TestWorker(t *testing.T) {
 		if job.BudgetS > 0 && time.Now().After(deadline) {
 			break
 		}
-		seed := job.SeedStart + uint64(i)
+		stride := uint64(1)
+		if job.SeedStride > 1 {
+			stride = uint64(job.SeedStride)
+		}
+		seed := job.SeedStart + uint64(i)*stride
 		sc := eng.gen(job.Prop, seed, job.Tier)
 		if traceEvery > 0 {
 			b, _ := json.Marshal(sc)
